@@ -148,7 +148,7 @@ func (e *enc) instr(b *ssa.BasicBlock, ins ssa.Instruction) {
 		n := e.havoc(i)
 		e.allocFresh(n)
 		el := i.Type().Underlying().(*types.Pointer).Elem()
-		if !i.Heap {
+		if !i.Heap || allocPrivate(i) {
 			pa := privAlloc{ref: n, arrs: map[string]bool{}}
 			switch el.Underlying().(type) {
 			case *types.Struct:
@@ -699,6 +699,8 @@ func (e *enc) mapUpdate(b *ssa.BasicBlock, i *ssa.MapUpdate) {
 		e.addI("safe", "hash", i, R, fmt.Sprintf("(not (uncomparable %s))", k))
 	}
 	e.mapWriteHook(b, i, m)
+	e.callOrd["#mapupdate"]++
+	e.siteAsserts(i, fmt.Sprintf("mapupdate %d", e.callOrd["#mapupdate"]), nil, nil, R)
 	e.harr("MapLen", "(Array Ref "+e.isort()+")")
 	if !mapSupported(ks, vs) {
 		e.bump("MapLen")
@@ -966,4 +968,100 @@ func intSize(b *types.Basic) int {
 		return 32
 	}
 	return 64
+}
+
+// closureSync: the closure value is only called or deferred by the function that creates it
+// (never stored, passed on or started as a goroutine).
+func closureSync(mc *ssa.MakeClosure) bool {
+	for _, r := range *mc.Referrers() {
+		switch u := r.(type) {
+		case *ssa.DebugRef:
+		case *ssa.Defer:
+			if u.Call.Value != ssa.Value(mc) {
+				return false
+			}
+		case *ssa.Call:
+			if u.Call.Value != ssa.Value(mc) {
+				return false
+			}
+		case *ssa.Store:
+			// stored into a local variable that is itself only called: one level
+			al, ok := u.Addr.(*ssa.Alloc)
+			if !ok || u.Val != ssa.Value(mc) {
+				return false
+			}
+			for _, rr := range *al.Referrers() {
+				switch x := rr.(type) {
+				case *ssa.Store, *ssa.DebugRef:
+				case *ssa.UnOp:
+					for _, use := range *x.Referrers() {
+						switch c := use.(type) {
+						case *ssa.Call:
+							if c.Call.Value != ssa.Value(x) {
+								return false
+							}
+						case *ssa.Defer:
+							if c.Call.Value != ssa.Value(x) {
+								return false
+							}
+						case *ssa.DebugRef:
+						default:
+							return false
+						}
+					}
+				case *ssa.MakeClosure:
+					// captured by another closure (recursive local functions)
+					if !closureSync(x) {
+						return false
+					}
+				default:
+					return false
+				}
+			}
+		default:
+			return false
+		}
+	}
+	return true
+}
+
+// allocPrivate: a captured local whose closures all stay inside the creating activation is as
+// private as a stack variable: neither other threads nor unrelated callees can reach it.
+func allocPrivate(a *ssa.Alloc) bool {
+	for _, r := range *a.Referrers() {
+		switch u := r.(type) {
+		case *ssa.Store:
+			if u.Addr != ssa.Value(a) {
+				return false
+			}
+		case *ssa.UnOp, *ssa.DebugRef, *ssa.FieldAddr, *ssa.IndexAddr:
+		case *ssa.MakeClosure:
+			if !closureSync(u) {
+				return false
+			}
+		default:
+			return false
+		}
+	}
+	return true
+}
+
+// closureFnSync: every creation site of the closure function keeps it inside the creating activation.
+func closureFnSync(fn *ssa.Function) bool {
+	p := fn.Parent()
+	if p == nil {
+		return false
+	}
+	found := false
+	for _, b := range p.Blocks {
+		for _, ins := range b.Instrs {
+			if mc, ok := ins.(*ssa.MakeClosure); ok && mc.Fn == ssa.Value(fn) {
+				found = true
+				if !closureSync(mc) {
+					return false
+				}
+			}
+		}
+	}
+	return found
 }
